@@ -16,7 +16,8 @@ from luqum.visitor import TreeTransformer
 
 def transformers():
     out = [("copy", lambda t: TreeTransformer().visit(t), None),
-           ("auto_head_tail", auto_head_tail, None),
+           ("auto_head_tail", lambda t: auto_head_tail(gen.strip_layout(t)), None),       # on the tree as built by hand (no layout)
+           ("auto_head_tail/parsed", auto_head_tail, None),
            ("open_range", OpenRangeTransformer(merge_ranges=False), None),
            ("open_range+merge", OpenRangeTransformer(merge_ranges=True), None)]
     for name, target in (("resolve:AND", T.AndOperation), ("resolve:OR", T.OrOperation), ("resolve:BOOL", T.BoolOperation),
@@ -93,6 +94,8 @@ CURATED = [
     "f:(>1 AND <5)", ">\"a b\" AND <\"k l\"", "<5 AND [1 TO *]", "[* TO 5] AND >1", "x OR (>1 AND <5 AND y)", "> 1", "a < 5 b", "f:>= 1",
     "a b a", "a a", "f:x y f:x", "\"x y\" z \"x y\"", "a~2 b a~2", "(a OR b) c (a OR b)", "a OR b OR a", "a AND b AND a", "f:(a b a)",
     "NOT a NOT a", "+a -b +a", "a^2 b^2 a^2", "[1 TO 2] [1 TO 2]",
+    "x OR price:foo AND >1 AND <5", "x OR -a AND >1 AND <5", "x OR \"p q\" AND [* TO 5] AND [1 TO *]", "y (a AND >1 AND <5)", "NOT z AND >1 AND <5 OR w",
+    "[-10 TO -1]", "f:[-10 TO -1]", "NOT [-5 TO -2]", "a AND [-2 TO -1] OR b",
 ]
 
 
